@@ -160,6 +160,55 @@ def run(ctx: Ctx) -> None:
         got = d.get(key)
         ctx.check(isinstance(got, list) and [tuple(p) for p in got] == pairs, "R1b", f"{key.upper()} pairs", lfmt, "pairs come back", f"{key.upper()} {pairs} comes back as {got!r} from lines {lines!r}")
 
+    # several POINTS blocks in one FEATURE (multipart): parsed, printed, and the printed blocks compared with the source blocks
+    def points_attr(pairs):
+        kids = [models.token("POINTS", "POINTS")]
+        for a, b in pairs:
+            nums = [cb("int", lambda v=v: [models.token("SIGNED_INT", str(v))]) for v in (a, b)]
+            kids.append(cb("num_pair", lambda nums=nums: list(nums)))
+        kids.append(models.token("_END", "END"))
+        return cb("points", lambda: list(kids))
+
+    _ctr = {"a": 11, "b": 21, "c": 31, "d": 41}
+    npair = lambda tag: (_ctr[tag], _ctr[tag] + 1)  # distinct concrete coordinates: the parts must stay told apart
+    multipart = {
+        "two blocks of two pairs": [[npair("a"), npair("b")], [npair("c"), npair("d")]],
+        "one pair, then two pairs": [[npair("a")], [npair("b"), npair("c")]],
+        "an empty block, then a pair": [[], [npair("a")]],
+        "a pair, then an empty block": [[npair("a")], []],
+        "two empty blocks": [[], []],
+        "three blocks": [[npair("a")], [npair("b")], [npair("c")]],
+        "three empty blocks": [[], [], []],
+        "two empty blocks, then a pair": [[], [], [npair("a")]],
+    }
+    for name, blocks in multipart.items():
+        ct = [models.token("FEATURE", SStr.atom("kw", lower_is="feature"))]
+        outs = X.eval_callback("composite", lambda blocks=blocks: [ct, [points_attr(b_) for b_ in blocks]])
+        if len(outs) != 1 or outs[0].kind != "return":
+            ctx.finding("R1b", f"multipart POINTS: {name}", lfmt, f"a FEATURE with the POINTS blocks {blocks} is not transformed: {[(o.kind, o.exc) for o in outs]}")
+            continue
+        stored = outs[0].value.get("points")
+        try:
+            lines = body("feature", [("points", stored)], '"')
+        except printer.PrinterRaised as ex:
+            ctx.finding("R1b", f"multipart POINTS: {name}", lfmt, f"a FEATURE with the POINTS blocks {blocks} loads as points = {stored!r}, which the printer cannot write: {ex}")
+            continue
+        # regroup the printed lines into blocks
+        got: list = []
+        for ln in lines:
+            t_ = ln.describe()
+            if t_ == "POINTS":
+                got.append([])
+            elif t_ == "END":
+                continue
+            elif got:
+                got[-1].append(t_)
+        want = [[f"<str({a})> <str({b})>" for a, b in b_] for b_ in blocks]
+        want_alt = [[f"{a} {b}" for a, b in b_] for b_ in blocks]
+        shown = [[x for x in g] for g in got]
+        same = len(got) == len(blocks) and all(len(g) == len(b_) for g, b_ in zip(got, blocks)) and all(all(str(a) in x and str(b) in x and x.index(str(a)) < x.rindex(str(b)) for x, (a, b) in zip(g, b_)) for g, b_ in zip(got, blocks))
+        ctx.check(same, "R1b", f"multipart POINTS: {name}", lfmt, f"{len(got)} block(s) written as read", f"a FEATURE with the POINTS blocks {blocks} loads as points = {stored!r} and is written as the blocks {shown}: the parts are not the ones that were read")
+
     # ---- R5 history independence ------------------------------------------------------------------
     ctx.rule("R5", "what the printer writes for (type, keyword, value) is the same on a printer that has already written other values as on a new one (values that are equal as text but differ in type, the same value under another keyword or object type)", 20)
     I5 = e.interp(allow_fork=False)
